@@ -154,7 +154,12 @@ func hits(w *vrt.W, e *dyn.Expr, name func(*dyn.Expr) string, hnil string) {
 
 // ---- building library instances -------------------------------------------------------
 
+// buildEq / buildHash memoise by expression node: a node that occurs at several places of an
+// expression DAG (fork cases) is built once and the identical instance VALUE is used everywhere.
 func buildEq(e *dyn.Expr, reg map[*dyn.Expr]fp.Eq[V]) fp.Eq[V] {
+	if out, ok := reg[e]; ok {
+		return out
+	}
 	kids := make([]fp.Eq[V], len(e.Kids))
 	for i, k := range e.Kids {
 		kids[i] = buildEq(k, reg)
@@ -222,6 +227,9 @@ func buildEq(e *dyn.Expr, reg map[*dyn.Expr]fp.Eq[V]) fp.Eq[V] {
 }
 
 func buildHash(e *dyn.Expr, reg map[*dyn.Expr]fp.Hashable[V]) fp.Hashable[V] {
+	if out, ok := reg[e]; ok {
+		return out
+	}
 	kids := make([]fp.Hashable[V], len(e.Kids))
 	for i, k := range e.Kids {
 		kids[i] = buildHash(k, reg)
@@ -559,7 +567,12 @@ func runCase(w *vrt.W, i int) {
 	if w.Tier == "thorough" {
 		n = 40
 	}
-	c := &caseT{w: w, idx: i, e: e, pool: dyn.GenPool(r, e.Dom, n)}
+	checkPoolCase(w, i, e, dyn.GenPool(r, e.Dom, n))
+}
+
+// checkPoolCase: the instance(s) denoted by e on all pairs and triples of the pool.
+func checkPoolCase(w *vrt.W, i int, e *dyn.Expr, pool []dyn.Entry) {
+	c := &caseT{w: w, idx: i, e: e, pool: pool}
 	c.exprStr = e.Format(nameEq)
 	ctx := dyn.NewCtx() // one context for the whole pool: pinned parts of different values share their storage
 	for _, en := range c.pool {
@@ -664,27 +677,99 @@ func casesPerBatch(tier string) int {
 	return 1500
 }
 
+// batch layout: [classic | fork | sized | conc (first half in the -race build)]; the new
+// families are appended so that the PRNG streams of the classic batches stay where they were
+func classicBatches(tier string) int {
+	if tier == "thorough" {
+		return 64
+	}
+	return 16
+}
+
+func forkBatches(tier string) int {
+	if tier == "thorough" {
+		return 8
+	}
+	return 2
+}
+
+func sizedBatches(tier string) int {
+	if tier == "thorough" {
+		return 8
+	}
+	return 2
+}
+
+func concBatches(tier string) int {
+	if tier == "thorough" {
+		return 8
+	}
+	return 4
+}
+
+// family of batch b and its index inside the family
+func batchFamily(tier string, b int) (string, int) {
+	if b < classicBatches(tier) {
+		return "classic", b
+	}
+	b -= classicBatches(tier)
+	if b < forkBatches(tier) {
+		return "fork", b
+	}
+	b -= forkBatches(tier)
+	if b < sizedBatches(tier) {
+		return "sized", b
+	}
+	return "conc", b - sizedBatches(tier)
+}
+
 func main() {
 	vrt.Main(vrt.Config{
-		Property: "C09",
+		Property:    "C09",
+		WorkerProcs: 8,
 		Batches: func(tier string) int {
-			if tier == "thorough" {
-				return 64
-			}
-			return 16
+			return classicBatches(tier) + forkBatches(tier) + sizedBatches(tier) + concBatches(tier)
 		},
-		Cases: func(tier string, b int) int { return casesPerBatch(tier) },
+		Cases: func(tier string, b int) int {
+			switch fam, k := batchFamily(tier, b); fam {
+			case "fork":
+				return 300
+			case "sized":
+				return sizedPerBatch()
+			case "conc":
+				if k < concBatches(tier)/2 {
+					return 150 // -race build
+				}
+				return 500
+			}
+			return casesPerBatch(tier)
+		},
+		RaceBatch: func(tier string, b int) bool {
+			fam, k := batchFamily(tier, b)
+			return fam == "conc" && k < concBatches(tier)/2
+		},
 		Run: func(w *vrt.W) {
+			fam, k := batchFamily(w.Tier, w.Batch)
 			for i := w.From; i < w.To; i++ {
-				runCase(w, i)
+				switch fam {
+				case "fork":
+					runForkCase(w, i)
+				case "sized":
+					runSizedCase(w, i, k)
+				case "conc":
+					runConcCase(w, i)
+				default:
+					runCase(w, i)
+				}
 			}
 		},
-		Rule: "case = one instance expression + one value pool. The expression is drawn by a PRNG over the exported instances/combinators of eq (Given over 16 comparable kinds, String, Bytes, Time, Option, Seq, Slice, Ptr via lazy.Done|lazy.Call, PtrGiven, GoMap, FpMap, Tuple1..21, HCons/HNil, ContraMap through id/half/neg/len/lower/floor/isDefined/tuple projection), nested up to 3 combinators deep with every component type instantiated at any; global case number g forces catalogue entry g mod 66 (each eq/hash instance and every tuple arity) at nesting level 0,1,2(,3), so every instance occurs at every level. When all nodes have a hash counterpart (Number over 13 numeric kinds, String, Bytes, Option, Seq, Slice, Ptr, Tuple1..21, HCons/HNil, ContraMap) the hash.* expression of the same shape is checked as well. The pool (>=24 quick / >=40 thorough values, + up to 10 storage-sharing ones) holds random base values, copies in another representation (nil vs empty vs spare capacity, 0.0 vs -0.0, other time zone / with a monotonic clock reading, other pointer, other map history / the zero fp.Map), one single-position mutant per tuple component / sequence element of the first base value, prefixes/extensions, and random further mutants. If values of the domain have storage (fp.Seq, []T, []byte, pointers, Go maps, fp.Map at any depth), the pool also holds one value without empty parts whose every slice is a window of a longer backing array, a copy of it in storage of its own, and values that share ALL their storage with it (the same pointers, maps, arrays - the whole pool is built in one allocation context) except that one sequence / byte slice somewhere inside is another window of the same array: same start and shorter (twice; sometimes empty), same start and longer, the same content at another offset, an overlapping window at another start; plus the identical object once more, a fresh copy of the shorter window, and mutants that share every part they did not change. Leaf values: every integer kind at both extremes, around +-2^7..2^63 and random; floats +-0, +-Inf, +-max, subnormals around the smallest normal, neighbours of 1, 0.1+0.2 vs 0.3, 2^24/2^53/2^63/2^64; strings with shared prefixes up to 40 bytes, embedded and lone NULs, invalid UTF-8, decomposed vs precomposed, 8/16-byte strings, substrings cut from one string; time.Time from year -1000 to 30000 incl. the zero Time, both ends of the int64-nanosecond window (1677-09-21 / 2262-04-11) to the nanosecond, the int32/uint32 second limits, pre-1970 instants with fractions, in 5 locations and with forged, mutually consistent monotonic readings. All ordered pairs and all triples are evaluated: reflexive (also against a fresh structurally identical build), symmetric, transitive, Eqv == structural reference on the models (Go == at leaves, instants for time, nil == empty, pointers by target, maps by key; by value only - storage is invisible to it), Eqv repeatable; Hash repeatable, equal on the fresh build, equal for Eqv-equal values. NaN never generated. distinct_nontrivial counts distinct (expression, pool) fingerprints of cases whose pool contained at least one pair of equal values in different representations (or distinct values collapsed by a ContraMap function) AND at least one pair exactly one position apart that is unequal.",
+		Rule: "case = one instance expression + one value pool. The expression is drawn by a PRNG over the exported instances/combinators of eq (Given over 16 comparable kinds, String, Bytes, Time, Option, Seq, Slice, Ptr via lazy.Done|lazy.Call, PtrGiven, GoMap, FpMap, Tuple1..21, HCons/HNil, ContraMap through id/half/neg/len/lower/floor/isDefined/tuple projection), nested up to 3 combinators deep with every component type instantiated at any; global case number g forces catalogue entry g mod 66 (each eq/hash instance and every tuple arity) at nesting level 0,1,2(,3), so every instance occurs at every level. When all nodes have a hash counterpart (Number over 13 numeric kinds, String, Bytes, Option, Seq, Slice, Ptr, Tuple1..21, HCons/HNil, ContraMap) the hash.* expression of the same shape is checked as well. The pool (>=24 quick / >=40 thorough values, + up to 10 storage-sharing ones) holds random base values, copies in another representation (nil vs empty vs spare capacity, 0.0 vs -0.0, other time zone / with a monotonic clock reading, other pointer, other map history / the zero fp.Map), one single-position mutant per tuple component / sequence element of the first base value, prefixes/extensions, and random further mutants. If values of the domain have storage (fp.Seq, []T, []byte, pointers, Go maps, fp.Map at any depth), the pool also holds one value without empty parts whose every slice is a window of a longer backing array, a copy of it in storage of its own, and values that share ALL their storage with it (the same pointers, maps, arrays - the whole pool is built in one allocation context) except that one sequence / byte slice somewhere inside is another window of the same array: same start and shorter (twice; sometimes empty), same start and longer, the same content at another offset, an overlapping window at another start; plus the identical object once more, a fresh copy of the shorter window, and mutants that share every part they did not change. Leaf values: every integer kind at both extremes, around +-2^7..2^63 and random; floats +-0, +-Inf, +-max, subnormals around the smallest normal, neighbours of 1, 0.1+0.2 vs 0.3, 2^24/2^53/2^63/2^64; strings with shared prefixes up to 40 bytes, embedded and lone NULs, invalid UTF-8, decomposed vs precomposed, 8/16-byte strings, substrings cut from one string; time.Time from year -1000 to 30000 incl. the zero Time, both ends of the int64-nanosecond window (1677-09-21 / 2262-04-11) to the nanosecond, the int32/uint32 second limits, pre-1970 instants with fractions, in 5 locations and with forged, mutually consistent monotonic readings. All ordered pairs and all triples are evaluated: reflexive (also against a fresh structurally identical build), symmetric, transitive, Eqv == structural reference on the models (Go == at leaves, instants for time, nil == empty, pointers by target, maps by key; by value only - storage is invisible to it), Eqv repeatable; Hash repeatable, equal on the fresh build, equal for Eqv-equal values. NaN never generated. distinct_nontrivial counts distinct (expression, pool) fingerprints of cases whose pool contained at least one pair of equal values in different representations (or distinct values collapsed by a ContraMap function) AND at least one pair exactly one position apart that is unequal. Three more batch families follow the classic ones. FORK batches: one base instance VALUE, a chain of 1..9 successive derivations of it and 2..4 further derivations of every chain member (eq/hash.ContraMap through different functions, Option, Seq, Slice, Ptr via lazy.Done|lazy.Call, TupleN at different positions with different companions, HCons as head or tail neighbour, eq.GoMap / eq.FpMap over int and string keys), all instances kept (up to ~45), each used on its pool right after it was built and checked on all pairs of its pool (Eqv == reference, Hash unchanged since it was built / equal on fresh copies / equal for Eqv-equal values) only after ALL of them exist, in PRNG order, twice; a disagreement that a freshly built instance of the same expression does not show is keyed <combinator>/forked-instance-disturbed. SIZED batches: domains with one fp.Seq / []T / []byte / Go map / fp.Map holding exactly 0,1,7,8,9,15,16,17,31,32,33,63,64,65,100,128,129,257,1000 elements (at the root or below Option / Ptr / a tuple / an hlist), pool = the value, another representation, copies differing in the first / a middle / the last element only, one element shorter / longer, an independent value of the same length, one sharing the first half, and windows of one backing array; the same pair / triple oracle. CONC batches (half of them in the -race build, DATA RACEs with a frame inside csgura/fp are violations race/<location>): ONE instance value (every third case has a package-level instance eq.Bytes / eq.Time / eq.String / hash.Bytes / hash.String / hash.HNil inside) is used by 4..32 goroutines released together, each on its own private pool with PRNG runtime.Gosched() yields; every Eqv / Hash must equal what the same instance answered single-threaded beforehand (key <instance>/concurrent-use-differs, the instance being the smallest sub-instance that shows a difference in a concurrent experiment of its own).",
 		Assumptions: []string{
 			"component types are instantiated at any (boxed values); the generic library code is the same for every type argument",
 			"functions given to ContraMap are pure",
 			"values are PRNG-sampled, NaN excluded as stated by the property",
 			"fp.Map values are built with a lawful key hasher of the harness",
+			"an instance is a value: it may be used by any number of goroutines at once (each on its own values) and any number of further instances may be derived from it; neither may change what it or another instance answers (instances are package-level variables in the library and in derived code)",
 		},
 		Floors: func(tier string) map[string]int64 {
 			min := int64(3)
@@ -729,6 +814,32 @@ func main() {
 				fl["allpos.eq.Tuple"+strconv.Itoa(n)] = 1
 				fl["allpos.hash.Tuple"+strconv.Itoa(n)] = 1
 			}
+			// forks of one instance value: every chain length, every derivation family on both sides
+			fl["fork.cases"] = 500
+			for k := 1; k <= 9; k++ {
+				fl["fork.chain_length."+strconv.Itoa(k)] = 30
+			}
+			for _, f := range append([]string{dyn.FamContra}, eqForkWraps...) {
+				fl["fork.eq.family."+f] = 200
+			}
+			for _, f := range append([]string{dyn.FamContra}, hashForkWraps...) {
+				fl["fork.hash.family."+f] = 100
+			}
+			fl["fork.eq.pairs_after_all_were_built"] = 1_000_000
+			fl["fork.hash.pairs_after_all_were_built"] = 500_000
+			// sized pools: every container kind at every length
+			for _, k := range dyn.SizedKinds {
+				for _, n := range dyn.SizedLens {
+					fl["sized."+dyn.KindName(k)+"."+strconv.Itoa(n)] = 3
+				}
+			}
+			// one instance value used by 4..32 goroutines at once
+			fl["conc.cases"] = 1000
+			fl["conc.cases_with_16_or_more_goroutines"] = 300
+			fl["conc.calls"] = 5_000_000
+			for _, f := range concRoots {
+				fl["conc.shared_package_level."+f.name] = 30
+			}
 			return fl
 		},
 		Finish: func(tier string, m *vrt.Merged, cov map[string]any) {
@@ -746,6 +857,22 @@ func main() {
 			cov["values_sharing_storage_with_another_pool_value"] = m.Counters["alias.values_with_shared_storage"]
 			cov["time_values_outside_int64_nanoseconds"] = m.Counters["time.values_outside_int64_nanoseconds"]
 			cov["time_monotonic_variant_available"] = dyn.MonoAvailable()
+			cov["sized_container_lengths"] = dyn.SizedLens
+			if cs, ok := cov["counters"].(map[string]int64); ok {
+				least := map[string]int64{}
+				for _, k := range dyn.SizedKinds {
+					kn := dyn.KindName(k)
+					least[kn] = -1
+					for _, n := range dyn.SizedLens {
+						key := "sized." + kn + "." + strconv.Itoa(n)
+						if v := m.Counters[key]; least[kn] < 0 || v < least[kn] {
+							least[kn] = v
+						}
+						delete(cs, key) // 95 counters: summarised
+					}
+				}
+				cov["sized_pools_per_length_at_least"] = least
+			}
 		},
 	})
 }
